@@ -46,7 +46,7 @@ PROPS = {
                 contract=False, title="without adoptions identical to std", std=True),
     "C08": dict(streams=["corpus", "contract", "raw", "exh2", "exh2e", "api", "giveup", "large"], fields=["heap"], oracles=["O8"], contract=False,
                 title="bookkeeping exact, symmetric, no dead names"),
-    "C09": dict(streams=["contract_full", "exh2"], fields=["D", "heapcounts"], oracles=[], contract=True,
+    "C09": dict(streams=["contract_full", "exh2"], fields=["D", "Dseq", "heapcounts"], oracles=[], contract=True,
                 title="destroyed sets independent of layout", layout=True),
     "C10": dict(streams=["script", "corpus"], fields=[f for f in ALL_FIELDS if f != "T"], oracles=["O1", "O2", "O5", "O6", "O8"], contract=True,
                 title="re-entrant destructors", bigscen="O5"),
@@ -163,17 +163,20 @@ def build_all(pid, log):
     fcntl.flock(lock, fcntl.LOCK_EX)
     try:
         env = dict(os.environ, CARGO_NET_OFFLINE="true")
-        rc, out = sh("cargo +nightly build --release --offline 2>&1 | tail -40", cwd=os.path.join(VERIF, "harness"), env=env)
+        rc, out = sh("cargo +nightly build --release --offline 2>&1", cwd=os.path.join(VERIF, "harness"), env=env)
+        out = out[-4000:]
         log.append(("cargo", rc, out[-2000:]))
-        if rc != 0 or not os.path.exists(engine.HEXEC) or "error" in out and "could not compile" in out:
+        if rc != 0 or not os.path.exists(engine.HEXEC):
             return False, False, "harness build failed:\n" + out[-1500:]
-        rc, out = sh(f"lake build driver invcheck 2>&1 | tail -30", cwd=LEAN)
+        rc, out = sh(f"lake build driver invcheck 2>&1", cwd=LEAN)
+        out = out[-3000:]
         log.append(("lake driver", rc, out[-2000:]))
         if rc != 0:
             return False, False, "driver build failed:\n" + out[-1500:]
-        rc, out = sh(f"lake build Cactus.Props.{pid} 2>&1 | tail -60", cwd=LEAN)
+        rc, out = sh(f"lake build Cactus.Props.{pid} 2>&1", cwd=LEAN)
+        out = out[-6000:]
         log.append(("lake props", rc, out[-3000:]))
-        lean_ok = rc == 0 and "error" not in out
+        lean_ok = rc == 0
         return True, lean_ok, out[-1500:]
     finally:
         fcntl.flock(lock, fcntl.LOCK_UN)
@@ -597,7 +600,18 @@ def main():
 
     if replay:
         doc = json.load(open(replay))
-        runs = engine.pipeline([(doc.get("case", "replay"), doc["ops"])])
+        ops = doc.get("ops") or (doc.get("detail") or {}).get("ops") or []
+        if ops and isinstance(ops[0], str) and ops[0].startswith("hexec "):
+            # a scenario mode of the harness is the failing input: run it again on the current tree
+            rc, o = sh([engine.HEXEC] + ops[0].split()[1:], timeout=1800)
+            last = o.strip().split("\n")[-1] if o.strip() else f"process died rc={rc}"
+            print(f"replay of `{ops[0]}`: {last}")
+            sys.exit(0 if rc == 0 and last.startswith("ok") else 1)
+        if not ops:
+            # no failing input was recorded (broken proof obligation): the replay is the proof check itself
+            print(f"replay of a proof obligation: proof_ok={proof_ok} {'' if proof_ok else lean_msg[-600:]}")
+            sys.exit(0 if proof_ok else 1)
+        runs = engine.pipeline([(doc.get("case", "replay"), ops)])
         res = judge(pid, cfg, runs)
         for r in runs:
             print("ops:", r.explicit)
@@ -648,7 +662,8 @@ def main():
         line = o.strip().split("\n")[-1] if o.strip() else ""
         extra_cov["unmodelled_api_differential"] = line
         if rc != 0 or not line.startswith("ok"):
-            extra_fail.append(("oracle", None, "O7:unmodelled shared API differs from std: " + line, [line]))
+            extra_fail.append(("oracle", None, "O7:unmodelled shared API differs from std: " + line,
+                               ["hexec apidiff " + ("20" if tier == "quick" else "400"), line]))
     if cfg.get("leakcheck") or cfg.get("weakraw"):
         # Weak handles through into_raw/from_raw (live, dead, and the dangling sentinel of Weak::new): a scenario
         # on the implementation only; a crash of the process is a failure with the scenario as the replay
@@ -671,7 +686,7 @@ def main():
         line = o.strip().split("\n")[-1] if o.strip() else ""
         extra_cov["make_mut_panic_fault_enumeration"] = line
         if rc != 0 or not line.startswith("ok"):
-            extra_fail.append(("oracle", None, "O11:" + line, [line]))
+            extra_fail.append(("oracle", None, "O11:" + line, ["hexec panicapi", line]))
     if cfg.get("layout"):
         cases = make_stream("contract_full", seed, tier)[: (800 if tier == "quick" else 8000)]
         base, n, bad = layout_check(cases, seed)
@@ -682,7 +697,7 @@ def main():
         out, bad = bigring_check(tier)
         extra_cov["bigring"] = out
         for msg in bad:
-            extra_fail.append(("oracle", None, "O15:" + msg, []))
+            extra_fail.append(("oracle", None, "O15:" + msg, ["hexec bigring " + " ".join(msg.replace("n=", "").replace(":", "").split()[:2]), msg]))
 
     # ---- known findings: witnesses must still fail for the line to be printed ---------------
     for k in load_known():
@@ -692,7 +707,7 @@ def main():
         for wf in k.get("witnesses", []):
             wcases = [c for c in load_corpus() if c[0].startswith(f"corpus:{wf}:")]
             for r in engine.pipeline(wcases):
-                fails = engine.oracle_fails(r, [k["match"]["oracle"]], require_contract=False)
+                fails = engine.oracle_fails(r, [k["match"]["oracle"]], require_contract=False, o1_needs_contract=False)
                 if fails:
                     wit_ok = True
         if wit_ok or res["known_hits"].get(k["id"]):
@@ -710,7 +725,8 @@ def main():
             want = r.oracle_fails[0][1][:3]
 
             def pred(nr, want=want):
-                fs = engine.oracle_fails(nr, cfg["oracles"] or ["O"], require_contract=cfg["contract"])
+                fs = engine.oracle_fails(nr, cfg["oracles"] or ["O"], require_contract=cfg["contract"],
+                                         o1_needs_contract=not cfg.get("o1_free"))
                 return bool(fs) and fs[0][1].startswith(want) and not classify_known(pid, nr, fs[0][0], fs[0][1], engine.compare(nr, ["D", "F", "E", "heap", "roots"]))
             try:
                 r = shrink(pid, cfg, r, pred)
@@ -793,7 +809,7 @@ def main():
             traces_validated_against_impl=len(all_runs), diverging_cases=len(res["diff_runs"]),
             channels_compared=cfg["fields"],
             oracles=cfg["oracles"] + [o for k, o in (("std", "O7"), ("layout", "O9"), ("panicapi", "O11"), ("bigring", "O15"),
-                                                       ("abort", "O16"), ("leakcheck", "O4-bytes")) if cfg.get(k)]
+                                                       ("abort", "O16"), ("leakcheck", "O4-bytes"), ("bigscen", "bigscen")) if cfg.get(k)]
                     + (["weakraw:" + cfg["weakraw"]] if cfg.get("weakraw") else []),
             streams=dict(stats),
             op_distribution=dict(opkinds), outcome_distribution=dict(paths),
